@@ -84,7 +84,11 @@ class ParseAPI(object):
             except ValueError:
                 return None
         else:
-            master_secret = pair[1].encode("utf8")  # type: ignore[assignment]
+            try:
+                master_secret = pair[1].encode("utf8")  # type: ignore[assignment]
+            except UnicodeEncodeError:
+                # a lone surrogate: not text that can be a passphrase
+                return None
         return self._network.keys.bip32_seed(master_secret)
 
     def hd_seed(self, s: str) -> Any:
@@ -101,7 +105,11 @@ class ParseAPI(object):
             except ValueError:
                 return None
         else:
-            master_secret = pair[1].encode("utf8")  # type: ignore[assignment]
+            try:
+                master_secret = pair[1].encode("utf8")  # type: ignore[assignment]
+            except UnicodeEncodeError:
+                # a lone surrogate: not text that can be a passphrase
+                return None
         return self._network.keys.bip32_seed(master_secret)
 
     def bip32_prv(self, s: str) -> Any:
